@@ -994,3 +994,381 @@ Proof.
   all: match goal with |- context [(?r =? 0)%Z] => destruct (r =? 0)%Z eqn:E4 end.
   all: repeat split; try reflexivity; lia.
 Qed.
+
+Lemma counter_revert_add c n :
+  let c' := counter_revert (fst (counter_add c n)) in
+  c_shares c' = c_shares c /\ c_rem c' = c_rem c.
+Proof.
+  unfold counter_revert, counter_add.
+  repeat match goal with |- context [let '(_, _) := ?x in _] => destruct x end.
+  cbn. split; reflexivity.
+Qed.
+
+(* the element is what newElement computes from its blob and its two indexes *)
+Definition made_by_new_element (thr : N) (e : element) : Prop :=
+  e = new_element (e_blob e) (e_pfb_index e) (e_blob_index e) thr.
+
+Lemma made_el_ok thr e : made_by_new_element thr e -> blob_ok (e_blob e) ->
+  lenN (b_data (e_blob e)) + signer_len (e_blob e) < 4294967296 -> el_ok e.
+Proof. intros -> Hb Hl. cbn [new_element e_blob] in *. apply new_element_ok; assumption. Qed.
+
+(* what holds of every builder obtained from an empty one by AppendTx / AppendBlobTx,
+   whether the transactions were accepted or not *)
+Definition binv (b : builder) : Prop :=
+  bd_done b = false /\
+  NoDup (map el_key (bd_blobs b)) /\
+  Forall (fun e => e_pfb_index e < lenN (bd_pfbs b)) (bd_blobs b) /\
+  cnt_ok (bd_pfbc b) /\
+  (bd_blobs b <> [] -> 0 < counter_size (bd_pfbc b))%Z /\
+  Forall (made_by_new_element (bd_thr b)) (bd_blobs b).
+
+Lemma binv_empty max thr : binv (empty_builder max thr).
+Proof.
+  unfold binv, empty_builder. cbn [bd_done bd_blobs bd_pfbs bd_pfbc map].
+  split; [reflexivity|]. split; [constructor|]. split; [constructor|]. split; [|split].
+  - unfold cnt_ok, new_counter. cbn. lia.
+  - intros H. exfalso. apply H. reflexivity.
+  - constructor.
+Qed.
+
+Lemma binv_not_empty b : binv b -> builder_is_empty b = true -> bd_blobs b = [].
+Proof.
+  intros (_ & _ & _ & _ & Hpos & _) He. destruct (bd_blobs b) as [|e l] eqn:E; [reflexivity|exfalso].
+  unfold builder_is_empty in He. assert (0 < counter_size (bd_pfbc b))%Z by (apply Hpos; discriminate). lia.
+Qed.
+
+Lemma append_tx_inv b t : binv b -> binv (fst (append_tx b t)) /\ bd_thr (fst (append_tx b t)) = bd_thr b.
+Proof.
+  intros (Hd & Hnd & Hpi & Hc & Hpos & Hmade). unfold append_tx.
+  destruct (counter_add (bd_txc b) (Z.of_N (lenN t))) as [c' diff].
+  destruct (can_fit b diff); cbn [fst bd_thr]; (split; [|reflexivity]); unfold binv;
+    cbn [bd_done bd_blobs bd_pfbs bd_pfbc];
+    (split; [first [reflexivity|exact Hd]|]); (split; [exact Hnd|]); (split; [exact Hpi|]);
+    (split; [exact Hc|split; [exact Hpos|exact Hmade]]).
+Qed.
+
+Lemma elements_of_keys : forall bs pi bi thr e, In e (elements_of bs pi bi thr) ->
+  e_pfb_index e = pi /\ bi <= e_blob_index e.
+Proof.
+  induction bs as [|b bs IH]; intros pi bi thr e Hin; cbn [elements_of] in Hin; [destruct Hin|].
+  destruct Hin as [<-|Hin]; [cbn; split; [reflexivity|lia]|].
+  destruct (IH _ _ _ _ Hin). split; [assumption|lia].
+Qed.
+
+Lemma elements_of_made : forall bs pi bi thr, Forall (made_by_new_element thr) (elements_of bs pi bi thr).
+Proof.
+  induction bs as [|b bs IH]; intros pi bi thr; cbn [elements_of]; constructor; [reflexivity|apply IH].
+Qed.
+
+Lemma elements_of_nodup : forall bs pi bi thr, NoDup (map el_key (elements_of bs pi bi thr)).
+Proof.
+  induction bs as [|b bs IH]; intros pi bi thr; cbn [elements_of map]; constructor; [|apply IH].
+  intros Hin. apply in_map_iff in Hin. destruct Hin as (e & Hk & Hin).
+  destruct (elements_of_keys _ _ _ _ _ Hin) as [_ Hge]. unfold el_key, new_element in Hk. cbn in Hk.
+  inversion Hk. lia.
+Qed.
+
+Lemma NoDup_app_intro {A} (l1 l2 : list A) : NoDup l1 -> NoDup l2 ->
+  (forall x, In x l1 -> ~ In x l2) -> NoDup (l1 ++ l2).
+Proof.
+  induction l1 as [|a l1 IH]; intros H1 H2 Hd; [exact H2|].
+  inversion H1; subst. cbn [app]. constructor.
+  - intros Hin. apply in_app_or in Hin. destruct Hin as [Hin|Hin]; [contradiction|].
+    apply (Hd a); [left; reflexivity|exact Hin].
+  - apply IH; try assumption. intros x Hx. apply Hd. right. exact Hx.
+Qed.
+
+Lemma append_blob_tx_inv b bt : binv b ->
+  binv (fst (append_blob_tx b bt)) /\ bd_thr (fst (append_blob_tx b bt)) = bd_thr b.
+Proof.
+  intros (Hd & Hnd & Hpi & Hc & Hpos & Hmade). unfold append_blob_tx.
+  set (size := index_wrapper_size (btx_tx bt) (worst_case_share_indexes (length (btx_blobs bt)))).
+  pose proof (counter_add_pos (bd_pfbc b) (Z.of_N size) Hc ltac:(lia)) as Hadd.
+  pose proof (counter_revert_add (bd_pfbc b) (Z.of_N size)) as Hrev.
+  destruct (counter_add (bd_pfbc b) (Z.of_N size)) as [c' diff]. cbn [fst] in Hadd, Hrev.
+  destruct Hadd as (Hc' & Hpos' & _). destruct Hrev as [Hr1 Hr2].
+  set (els := elements_of (btx_blobs bt) (lenN (bd_pfbs b)) 0 (bd_thr b)).
+  destruct (can_fit b _); cbn [fst bd_thr]; (split; [|reflexivity]); unfold binv;
+    cbn [bd_done bd_blobs bd_pfbs bd_pfbc].
+  - split; [reflexivity|]. split; [|split; [|split; [exact Hc'|split; [intros _; exact Hpos'|]]]].
+    + rewrite map_app. apply NoDup_app_intro; [exact Hnd|apply elements_of_nodup|].
+      intros k Hk1 Hk2. apply in_map_iff in Hk1. destruct Hk1 as (e1 & <- & Hin1).
+      apply in_map_iff in Hk2. destruct Hk2 as (e2 & Hk & Hin2).
+      rewrite Forall_forall in Hpi. specialize (Hpi _ Hin1).
+      destruct (elements_of_keys _ _ _ _ _ Hin2) as [Hp2 _]. unfold el_key in Hk. inversion Hk. lia.
+    + apply Forall_app. split.
+      * eapply Forall_impl; [|exact Hpi]. cbn beta. intros e He. rewrite lenN_app. lia.
+      * apply Forall_forall. intros e He. destruct (elements_of_keys _ _ _ _ _ He) as [-> _].
+        rewrite lenN_app. unfold lenN. cbn [length]. lia.
+    + apply Forall_app. split; [exact Hmade|apply elements_of_made].
+  - split; [exact Hd|]. split; [exact Hnd|]. split; [exact Hpi|]. split; [|split].
+    + unfold cnt_ok in *. rewrite Hr1, Hr2. exact Hc.
+    + intros Hne. specialize (Hpos Hne). unfold counter_size in *. rewrite Hr1, Hr2. exact Hpos.
+    + exact Hmade.
+Qed.
+
+Lemma construct_loop_inv : forall txs b seen b', binv b -> construct_loop b seen txs = Ok b' ->
+  binv b' /\ bd_thr b' = bd_thr b.
+Proof.
+  induction txs as [|t tl IH]; intros b seen b' Hinv H; cbn [construct_loop] in H.
+  - inversion H; subst. split; [exact Hinv|reflexivity].
+  - destruct (unmarshal_blob_tx t) as [| |bt].
+    + destruct seen; [discriminate|].
+      pose proof (append_tx_inv b t Hinv) as [Hi Ht].
+      destruct (append_tx b t) as [b1 ok]. cbn [fst] in *. destruct ok; [|discriminate].
+      destruct (IH _ _ _ Hi H) as [Hi' Ht']. split; [exact Hi'|congruence].
+    + discriminate.
+    + pose proof (append_blob_tx_inv b bt Hinv) as [Hi Ht].
+      destruct (append_blob_tx b bt) as [b1 ok]. cbn [fst] in *. destruct ok; [|discriminate].
+      destruct (IH _ _ _ Hi H) as [Hi' Ht']. split; [exact Hi'|congruence].
+Qed.
+
+Lemma new_builder_txs_inv max thr txs b : new_builder_txs max thr txs = Ok b -> binv b /\ bd_thr b = thr.
+Proof.
+  unfold new_builder_txs. destruct (negb (new_builder_ok max)); [discriminate|]. intros H.
+  apply construct_loop_inv in H; [|apply binv_empty]. exact H.
+Qed.
+
+Lemma build_loop_inv : forall txs b normals blobs b' n' bl', binv b ->
+  build_loop b txs normals blobs = Ok (b', n', bl') -> binv b' /\ bd_thr b' = bd_thr b.
+Proof.
+  induction txs as [|t tl IH]; intros b normals blobs b' n' bl' Hinv H; cbn [build_loop] in H.
+  - inversion H; subst. split; [exact Hinv|reflexivity].
+  - destruct (unmarshal_blob_tx t) as [| |bt].
+    + pose proof (append_tx_inv b t Hinv) as [Hi Ht].
+      destruct (append_tx b t) as [b1 ok]. cbn [fst] in *.
+      destruct (IH _ _ _ _ _ _ Hi H) as [Hi' Ht']. split; [exact Hi'|congruence].
+    + discriminate.
+    + pose proof (append_blob_tx_inv b bt Hinv) as [Hi Ht].
+      destruct (append_blob_tx b bt) as [b1 ok]. cbn [fst] in *.
+      destruct (IH _ _ _ _ _ _ Hi H) as [Hi' Ht']. split; [exact Hi'|congruence].
+Qed.
+
+(* C04, BlobShareRange: for a blob of a kept blob transaction the query returns
+   (recorded index, recorded index + share count) *)
+Theorem blob_share_range_spec txs max thr b b' sq e i : 1 <= thr ->
+  new_builder_txs max thr txs = Ok b -> Forall el_ok (bd_blobs b) ->
+  export b = Ok (b', sq) ->
+  In (e, i) (export_place b) ->
+  blob_share_range txs (Z.of_N (lenN (bd_txs b)) + Z.of_N (e_pfb_index e)) (Z.of_N (e_blob_index e)) max thr
+  = Ok (u32 i, u32 i + e_num_shares e).
+Proof.
+  intros Hthr Hnb Hok H Hin. destruct (new_builder_txs_inv _ _ _ _ Hnb) as [Hinv Ht]. subst thr.
+  pose proof Hinv as (Hdone & Hnd & _).
+  destruct (blob_queries_spec b b' sq e i Hthr Hok (binv_not_empty b Hinv) Hnd H Hin) as (Hf & _ & _ & Hl).
+  unfold blob_share_range. rewrite Hnb. cbn [bind]. rewrite (Hf Hdone). cbn [bind]. rewrite Hl. reflexivity.
+Qed.
+
+Theorem blob_share_range_out_of_range txs max thr b pi bi :
+  new_builder_txs max thr txs = Ok b ->
+  (pi < Z.of_N (lenN (bd_txs b)) \/ Z.of_N (lenN (bd_txs b)) + Z.of_N (lenN (bd_pfbs b)) <= pi \/ bi < 0)%Z ->
+  blob_share_range txs pi bi max thr = Err.
+Proof.
+  intros Hnb H. unfold blob_share_range. rewrite Hnb. cbn [bind].
+  destruct (blob_queries_out_of_range b pi bi H) as [-> _]. reflexivity.
+Qed.
+
+(* ---------- the remaining C04 / C03 statements on Export ---------- *)
+Theorem export_aligned b e i : 1 <= bd_thr b -> In (e, i) (export_place b) ->
+  i mod subtree_width (e_num_shares e) (bd_thr b) = 0.
+Proof.
+  intros Hthr Hin. pose proof (place_aligned (sort_elements (bd_blobs b)) (bd_thr b) (export_start b) Hthr) as H.
+  rewrite Forall_forall in H. apply (H _ Hin).
+Qed.
+
+Theorem export_ranges_sorted b : 1 <= bd_thr b ->
+  map fst (export_place b) = sort_elements (bd_blobs b) /\
+  StronglySorted range_before (export_place b).
+Proof. intros Hthr. split; [apply place_fst|apply place_sorted, Hthr]. Qed.
+
+(* the index of each blob is the least multiple of its subtree width at or after the end
+   of the blob before it (for the first blob: after the reserved transaction shares) *)
+Theorem export_least b k e i : 1 <= bd_thr b -> nth_error (export_place b) k = Some (e, i) ->
+  let cur := end_cursor (bd_thr b) (export_start b) (firstn k (sort_elements (bd_blobs b))) in
+  i = next_share_index cur (e_num_shares e) (bd_thr b) /\
+  cur <= i /\ i < cur + subtree_width (e_num_shares e) (bd_thr b) /\
+  forall m, m mod subtree_width (e_num_shares e) (bd_thr b) = 0 -> cur <= m -> i <= m.
+Proof. intros Hthr H. apply place_least; assumption. Qed.
+
+Theorem export_gap b b' sq k e1 i1 e2 i2 : 1 <= bd_thr b -> Forall el_ok (bd_blobs b) ->
+  (builder_is_empty b = true -> bd_blobs b = []) ->
+  export b = Ok (b', sq) ->
+  nth_error (export_place b) k = Some (e1, i1) ->
+  nth_error (export_place b) (S k) = Some (e2, i2) ->
+  let gap := i2 - (i1 + e_num_shares e1) in
+  i1 + e_num_shares e1 <= i2 /\
+  i2 = next_share_index (i1 + e_num_shares e1) (e_num_shares e2) (bd_thr b) /\
+  firstn (N.to_nat gap) (skipn (N.to_nat (i1 + e_num_shares e1)) sq) =
+  repeat (padding_spec (b_ns (e_blob e1)) (b_ver (e_blob e1))) (N.to_nat gap).
+Proof.
+  intros Hthr Hok Hempty H H1 H2 gap.
+  destruct (export_layout b b' sq Hthr Hok Hempty H) as (_ & _ & _ & _ & _ & _ & Hfit & Hwin).
+  assert (Hoks : Forall el_ok (sort_elements (bd_blobs b))).
+  { eapply Permutation_Forall; [apply Permutation_sym, bl_sort_perm|exact Hok]. }
+  unfold export_place, export_region, export_nrs in *.
+  set (els := sort_elements (bd_blobs b)) in *. set (thr := bd_thr b) in *. set (st := export_start b) in *.
+  destruct (region_gap els thr true st [] 0 k e1 i1 e2 i2 Hthr Hoks H1 H2) as (pre & post & E & Hlen & Hi2).
+  pose proof (nth_error_In _ _ H1) as Hin1.
+  destruct (region_truthful els thr true st [] 0 e1 i1 Hthr Hoks Hin1) as (Hle & _ & _).
+  assert (Hel : el_ok e1).
+  { rewrite Forall_forall in Hoks. apply Hoks. eapply place_in_els, Hin1. }
+  destruct Hel as [_ Hn].
+  assert (Hge : i1 + e_num_shares e1 <= i2) by (rewrite Hi2; apply nsi_ge, Hthr).
+  split; [exact Hge|split; [exact Hi2|]].
+  set (rep := repeat (padding_spec (b_ns (e_blob e1)) (b_ver (e_blob e1))) (N.to_nat gap)).
+  assert (Hrep : length rep = N.to_nat gap) by (unfold rep; apply repeat_length).
+  replace (N.to_nat (i1 + e_num_shares e1))
+    with (N.to_nat (start_of thr true st els) + length (pre ++ blob_spec (e_blob e1)))%nat
+    by (rewrite app_length; unfold lenN in *; lia).
+  rewrite (firstn_skipn_window sq (region thr true st [] 0 els) _ _ _ Hwin).
+  - rewrite E. fold gap. fold rep. rewrite (app_assoc pre). rewrite <- Hrep. apply firstn_skipn_mid; reflexivity.
+  - rewrite E. fold gap. fold rep. rewrite !app_length, Hrep. lia.
+Qed.
+
+(* the whole blob region of the square: at [export_nrs b], the shares [export_region b];
+   each of them is a share of some blob's encoding or a padding share carrying the
+   namespace and share version of a blob of the square *)
+Theorem export_region_classified b :
+  Forall (fun s => (exists e, In e (bd_blobs b) /\ In s (blob_spec (e_blob e))) \/
+                   (exists e, In e (bd_blobs b) /\ s = padding_spec (b_ns (e_blob e)) (b_ver (e_blob e))))
+         (export_region b).
+Proof.
+  unfold export_region. eapply Forall_impl; [|apply region_classified]. cbn beta.
+  intros s [(e & Hin & Hs)|[(e & Hin & Hs)|[Hf _]]]; [left|right|discriminate]; exists e;
+    (split; [eapply Permutation_in; [apply bl_sort_perm|exact Hin]|exact Hs]).
+Qed.
+
+(* ---------- namespaces of the blob region (for C03) ---------- *)
+Lemma sh_ns_padding_spec ns v : length ns = 29%nat -> sh_ns (padding_spec ns v) = ns.
+Proof. intros H. unfold padding_spec. apply acc_ns, H. Qed.
+
+(* the namespaces of the region's shares: each blob's namespace, repeated over its shares
+   and over the padding that follows it *)
+Fixpoint ns_seq (thr : N) (first : bool) (cursor : N) (pns : namespace) (els : list element)
+  : list namespace :=
+  match els with
+  | [] => []
+  | e :: tl =>
+    let c := next_share_index cursor (e_num_shares e) thr in
+    (if first then [] else repeat pns (N.to_nat (c - cursor)))
+    ++ repeat (b_ns (e_blob e)) (N.to_nat (e_num_shares e))
+    ++ ns_seq thr false (c + e_num_shares e) (b_ns (e_blob e)) tl
+  end.
+
+Lemma map_repeat {A B} (f : A -> B) x n : map f (repeat x n) = repeat (f x) n.
+Proof.
+  induction n as [|n IH]; [reflexivity|].
+  change (repeat x (S n)) with (x :: repeat x n). change (repeat (f x) (S n)) with (f x :: repeat (f x) n).
+  cbn [map]. rewrite IH. reflexivity.
+Qed.
+
+Lemma Forall_eq_repeat {A} (x : A) : forall l, Forall (fun y => y = x) l -> l = repeat x (length l).
+Proof.
+  induction l as [|y l IH]; intros H; [reflexivity|]. inversion H; subst.
+  cbn [length]. change (repeat x (S (length l))) with (x :: repeat x (length l)). f_equal. apply IH. assumption.
+Qed.
+
+Lemma region_ns : forall els thr first c pns pver, Forall el_ok els ->
+  (first = false -> length pns = 29%nat) ->
+  map sh_ns (region thr first c pns pver els) = ns_seq thr first c pns els.
+Proof.
+  induction els as [|e tl IH]; intros thr first c pns pver Hok Hp; [reflexivity|].
+  inversion Hok as [|? ? [Hb Hn] Htl]; subst. cbn [region ns_seq]. rewrite !map_app.
+  pose proof Hb as (Hns29 & _).
+  f_equal; [|f_equal].
+  - destruct first; [reflexivity|]. rewrite map_repeat, sh_ns_padding_spec by auto. reflexivity.
+  - rewrite Hn. unfold lenN. rewrite Nnat.Nat2N.id. rewrite <- (map_length sh_ns).
+    apply Forall_eq_repeat. apply Forall_forall. intros x Hx. apply in_map_iff in Hx.
+    destruct Hx as (s & <- & Hs). pose proof (blob_spec_headers _ Hb) as HF. rewrite Forall_forall in HF.
+    apply (HF s Hs).
+  - apply IH; [exact Htl|intros _; exact Hns29].
+Qed.
+
+Lemma ns_seq_in : forall els thr first c pns x, In x (ns_seq thr first c pns els) ->
+  (first = false /\ x = pns) \/ In x (map (fun e => b_ns (e_blob e)) els).
+Proof.
+  induction els as [|e tl IH]; intros thr first c pns x Hin; [destruct Hin|].
+  cbn [ns_seq] in Hin. apply in_app_or in Hin. destruct Hin as [Hin|Hin].
+  - destruct first; [destruct Hin|]. apply repeat_spec in Hin. left. auto.
+  - apply in_app_or in Hin. destruct Hin as [Hin|Hin].
+    + apply repeat_spec in Hin. right. left. auto.
+    + apply IH in Hin. destruct Hin as [[_ ->]|Hin]; right; [left; reflexivity|right; exact Hin].
+Qed.
+
+Lemma StronglySorted_app_intro {A} (R : A -> A -> Prop) : forall l1 l2,
+  StronglySorted R l1 -> StronglySorted R l2 ->
+  (forall x y, In x l1 -> In y l2 -> R x y) -> StronglySorted R (l1 ++ l2).
+Proof.
+  induction l1 as [|a l1 IH]; intros l2 H1 H2 H12; [exact H2|].
+  inversion H1; subst. cbn [app]. constructor.
+  - apply IH; try assumption. intros x y Hx Hy. apply H12; [right; exact Hx|exact Hy].
+  - apply Forall_app. split; [assumption|]. apply Forall_forall. intros y Hy. apply H12; [left; reflexivity|exact Hy].
+Qed.
+
+Lemma StronglySorted_repeat {A} (R : A -> A -> Prop) x n : R x x -> StronglySorted R (repeat x n).
+Proof.
+  intros Hr. induction n as [|n IH]; [constructor|].
+  change (repeat x (S n)) with (x :: repeat x n). constructor; [exact IH|].
+  apply Forall_forall. intros y Hy. apply repeat_spec in Hy. subst. exact Hr.
+Qed.
+
+(* if the elements are in namespace order (and follow the previous namespace), so are
+   the shares of the region *)
+Lemma ns_seq_sorted (R : namespace -> namespace -> Prop) : (forall x, R x x) ->
+  forall els thr (first : bool) c pns,
+  StronglySorted R ((if first then @nil namespace else [pns]) ++ map (fun e => b_ns (e_blob e)) els) ->
+  StronglySorted R (ns_seq thr first c pns els).
+Proof.
+  intros Hrefl. induction els as [|e tl IH]; intros thr first c pns Hs; [constructor|].
+  cbn [ns_seq].
+  assert (Htail : StronglySorted R (b_ns (e_blob e) :: map (fun e => b_ns (e_blob e)) tl)).
+  { destruct first; cbn [app map] in Hs; [exact Hs|]. inversion Hs; assumption. }
+  assert (Habove : forall y, In y (map (fun e => b_ns (e_blob e)) tl) -> R (b_ns (e_blob e)) y).
+  { inversion Htail as [|? ? _ HF]; subst. rewrite Forall_forall in HF. exact HF. }
+  assert (Hrest : StronglySorted R (ns_seq thr false (next_share_index c (e_num_shares e) thr + e_num_shares e)
+                                          (b_ns (e_blob e)) tl)).
+  { apply IH. exact Htail. }
+  assert (Hmid : StronglySorted R (repeat (b_ns (e_blob e)) (N.to_nat (e_num_shares e)) ++
+                   ns_seq thr false (next_share_index c (e_num_shares e) thr + e_num_shares e) (b_ns (e_blob e)) tl)).
+  { apply StronglySorted_app_intro; [apply StronglySorted_repeat, Hrefl|exact Hrest|].
+    intros x y Hx Hy. apply repeat_spec in Hx. subst x.
+    apply ns_seq_in in Hy. destruct Hy as [[_ ->]|Hy]; [apply Hrefl|apply Habove, Hy]. }
+  destruct first; [exact Hmid|].
+  apply StronglySorted_app_intro; [apply StronglySorted_repeat, Hrefl|exact Hmid|].
+  intros x y Hx Hy. apply repeat_spec in Hx. subst x.
+  cbn [app map] in Hs. inversion Hs as [|? ? _ HF]; subst. rewrite Forall_forall in HF. apply HF.
+  apply in_app_or in Hy. destruct Hy as [Hy|Hy].
+  - apply repeat_spec in Hy. subst. left. reflexivity.
+  - apply ns_seq_in in Hy. destruct Hy as [[_ ->]|Hy]; [left; reflexivity|right; exact Hy].
+Qed.
+
+(* C03, blob region: the namespaces of the region's shares are in the order of the sorted
+   element list, whatever reflexive order [R] that list is sorted by *)
+Theorem export_region_ns_sorted (R : namespace -> namespace -> Prop) b : (forall x, R x x) ->
+  Forall el_ok (bd_blobs b) ->
+  StronglySorted R (map (fun e => b_ns (e_blob e)) (sort_elements (bd_blobs b))) ->
+  StronglySorted R (map sh_ns (export_region b)).
+Proof.
+  intros Hrefl Hok Hs. unfold export_region. rewrite region_ns.
+  - apply ns_seq_sorted; [exact Hrefl|exact Hs].
+  - eapply Permutation_Forall; [apply Permutation_sym, bl_sort_perm|exact Hok].
+  - discriminate.
+Qed.
+
+(* what the invariant supplies to the theorems above *)
+Lemma binv_facts b : binv b ->
+  bd_done b = false /\ NoDup (map el_key (bd_blobs b)) /\
+  (builder_is_empty b = true -> bd_blobs b = []) /\
+  Forall (made_by_new_element (bd_thr b)) (bd_blobs b) /\
+  Forall (fun e => blob_ok (e_blob e) /\ lenN (b_data (e_blob e)) + signer_len (e_blob e) < 4294967296 -> el_ok e)
+         (bd_blobs b).
+Proof.
+  intros Hinv. pose proof Hinv as (Hd & Hnd & _ & _ & _ & Hmade).
+  split; [exact Hd|]. split; [exact Hnd|]. split; [apply binv_not_empty, Hinv|]. split; [exact Hmade|].
+  eapply Forall_impl; [|exact Hmade]. cbn beta. intros e He [Hb Hl]. eapply made_el_ok; eassumption.
+Qed.
+
+Lemma append_inv b : binv b ->
+  (forall t, binv (fst (append_tx b t)) /\ bd_thr (fst (append_tx b t)) = bd_thr b) /\
+  (forall bt, binv (fst (append_blob_tx b bt)) /\ bd_thr (fst (append_blob_tx b bt)) = bd_thr b).
+Proof. intros H. split; [intros t; apply append_tx_inv, H|intros bt; apply append_blob_tx_inv, H]. Qed.
